@@ -3,6 +3,7 @@ import SJ.Proofs.Numeric
 import SJ.Proofs.Lookup
 import SJ.Proofs.GoNum
 import SJ.Proofs.GoObject
+import SJ.Proofs.GoArrNum
 /-
 C12 — Lookup, filtered iteration and bulk accessors agree with plain traversal.
 -/
@@ -132,5 +133,26 @@ theorem C12_object_walk_follows_source (pj : PJ) (hb : BufOK pj) (n : Int) (off 
       (View.nextElementBytes pj v fuel) ∧
     (View.nextElementBytes pj v fuel).safe = true :=
   go_object_source_tie pj hb n off len i d0 v rest hi hv fuel hf
+
+open SJ.Generated SJ.GoSem SJ.GoArrNum in
+/-- **Source tie** (DESIGN §6.3). `Array.AsFloat`, `Array.AsInteger`, `Array.AsUint64` (`parsed_array.go`) are printed
+    from /repo as syntax trees on every run. Their meaning under `GoSem.exec` — the loop over the tape words, the tag
+    switch, the unguarded read of the tag word and the guarded read of the value word, the float range tests with
+    `math.MaxInt64`/`MinInt64`/`MaxUint64` converted as Go converts them, the conversions — is the bulk accessor model
+    `View.asNum` that `C12_bulk_eq_traversal` is about: same slice and nil, nil slice and an error, or a panic, for every
+    document and every view (also views longer than the array: both sides panic at the same word). Fuel is the loop
+    budget, the same on both sides; `(lim − off)/2 + 1` always suffices. Never stuck; tape untouched. -/
+theorem C12_bulk_accessors_follow_source (pj : PJ) (v : View) (fuel : Nat) :
+    SimA pj (fun ws => .u64s ws.toList) (.u64s []) v fuel
+      (runFun goFuns goArray_AsFloat fuel ⟨[("a.off", .int v.off), ("a.lim", .int v.lim)], pj.tape⟩)
+      (View.asNum pj .asFloat v #[] fuel) ∧
+    SimA pj (fun ws => .ints (ws.toList.map toInt64)) (.ints []) v fuel
+      (runFun goFuns goArray_AsInteger fuel ⟨[("a.off", .int v.off), ("a.lim", .int v.lim)], pj.tape⟩)
+      (View.asNum pj .asInteger v #[] fuel) ∧
+    SimA pj (fun ws => .u64s ws.toList) (.u64s []) v fuel
+      (runFun goFuns goArray_AsUint64 fuel ⟨[("a.off", .int v.off), ("a.lim", .int v.lim)], pj.tape⟩)
+      (View.asNum pj .asUint64 v #[] fuel) ∧
+    ((v.lim - v.off) / 2 + 1 ≤ fuel → ∀ kind, View.asNum pj kind v #[] fuel ≠ .diverge) :=
+  go_arrnum_source_tie pj v fuel
 
 end SJ.Properties.C12
